@@ -35,16 +35,18 @@ use proptest::prelude::*;
 use rumqttd::RouterConfig;
 use serde::{Deserialize, Serialize};
 use serde_json::json;
-use std::collections::VecDeque;
+use std::collections::{HashSet, VecDeque};
 
 pub const FLOW_RULE: &str = "E5 flow (e5_flow): real router thread + real connection tasks (RemoteLink/Network over 64 KiB duplex streams), publisher and subscriber of (v4|v5)x(v4|v5), max_outgoing_packet_count in {8,30,200}; the subscriber holds f/# (QoS 0-2) and optionally g/# (own QoS) on one connection; the publisher sends 1-320 messages (five topics under f/ and g/, QoS 0-2 with the full acknowledgement flow, payload = serial tag alone / ~200 B / ~3000 B by a per-case mix) in chunks of 1-25 written back-to-back, each chunk closed by PINGREQ, then a QoS 0 end marker per subscription; a cyclic script of Pub(chunks) / Read(frames) / Ack(oldest n | all) steps interleaves them, so the subscriber pauses while its stream fills and the broker's write blocks, acknowledges in order (PUBACK; PUBREC then PUBCOMP held back to the next round, sent on PUBREL, or awaited flow by flow) and eventually everything. Oracle, while reading: per subscription exactly the accepted serials in acceptance order, each once, topic and payload intact (C01); pkid != 0 iff QoS > 0, at most 100 unacknowledged QoS>0 forwards at the client with pairwise distinct ids, checked again after the system went quiescent with a full window; one PUBREL per PUBREC in order (C09); the publisher reads exactly its PUBACK/PUBREC, then PUBCOMP, in request order before the PINGRESP (C06); both tasks alive at the end. Liveness without a clock: a frame the oracle still expects (backlog with an open window, PUBREL, acknowledgements, PINGRESP) while the quiescence detector holds (router idle for 200 iterations with an empty channel, no connection task runnable, stream empty, observed twice) is a stall. Non-trivial: >=60 messages delivered and (>=2 acknowledgement rounds or max_outgoing_packet_count < 200).";
 
 /// topics 0..=2 match f/#, 3..=4 match g/#
-const TOPICS: [&str; 5] = ["f/a", "f/b/c", "f", "g/a", "g/x/y"];
-const FILTERS: [&str; 2] = ["f/#", "g/#"];
+pub(super) const TOPICS: [&str; 5] = ["f/a", "f/b/c", "f", "g/a", "g/x/y"];
+pub(super) const FILTERS: [&str; 2] = ["f/#", "g/#"];
 const END_TOPICS: [&str; 2] = ["f/end", "g/end"];
+/// the publisher's own subscription (`FlowParams::echo`)
+pub(super) const ECHO_TOPIC: &str = "g/a";
 /// what C09 grants: unacknowledged QoS>0 publishes towards one client
-const WINDOW: usize = 100;
+pub(super) const WINDOW: usize = 100;
 const MEDIUM: usize = 200;
 const LARGE: usize = 3000;
 
@@ -100,19 +102,62 @@ pub struct FlowCase {
     pub script: Vec<FlowStep>,
 }
 
+/// Size class of a message under a payload mix: 0 serial tag only, 1 ~200 B, 2 ~3000 B
+pub(super) fn size_class(mix: [u8; 2], m: &FlowMsg) -> u8 {
+    if m.size < mix[0] {
+        0
+    } else if m.size < mix[1] {
+        1
+    } else {
+        2
+    }
+}
+
 impl FlowCase {
     fn class(&self, m: &FlowMsg) -> u8 {
-        if m.size < self.mix[0] {
-            0
-        } else if m.size < self.mix[1] {
-            1
-        } else {
-            2
+        size_class(self.mix, m)
+    }
+
+    fn params(&self) -> FlowParams<'_> {
+        FlowParams {
+            sig: "flow",
+            ids: ["flow-sub", "flow-pub"],
+            pub_ver: self.pub_ver,
+            sub_ver: self.sub_ver,
+            sub_qos: self.sub_qos,
+            second: self.second,
+            chunk: self.chunk,
+            qos2: self.qos2,
+            mix: self.mix,
+            msgs: &self.msgs,
+            echo: false,
         }
     }
 }
 
-fn flow_step() -> BoxedStrategy<FlowStep> {
+/// What the two-client flow (publisher, subscriber, oracle: `Run`) needs to know about a case.
+/// `e5_flow` runs it alone, `e5_isolation` runs it as the witness pair among adversaries.
+pub(super) struct FlowParams<'a> {
+    /// first segment of every failure signature
+    pub sig: &'static str,
+    /// client ids of the subscriber and of the publisher
+    pub ids: [&'static str; 2],
+    pub pub_ver: Ver,
+    pub sub_ver: Ver,
+    /// QoS of the subscriber's f/# and, if any, g/#
+    pub sub_qos: u8,
+    pub second: Option<u8>,
+    pub chunk: u8,
+    pub qos2: Qos2Style,
+    pub mix: [u8; 2],
+    pub msgs: &'a [FlowMsg],
+    /// the publisher also holds a QoS 0 subscription on ECHO_TOPIC (both directions on one
+    /// connection); messages on that topic are always tiny, so that its stream never fills up
+    /// while it writes a chunk
+    pub echo: bool,
+}
+
+pub(super) fn flow_step() -> BoxedStrategy<FlowStep> {
     prop_oneof![
         4 => prop_oneof![4 => 1u8..=2, 3 => 3u8..=6, 2 => 7u8..=16].prop_map(FlowStep::Pub),
         4 => prop_oneof![2 => 1u16..=8, 3 => 9u16..=60, 3 => 61u16..=160, 2 => Just(400u16)].prop_map(FlowStep::Read),
@@ -121,7 +166,7 @@ fn flow_step() -> BoxedStrategy<FlowStep> {
     .boxed()
 }
 
-fn flow_msg() -> BoxedStrategy<FlowMsg> {
+pub(super) fn flow_msg() -> BoxedStrategy<FlowMsg> {
     (0u8..TOPICS.len() as u8, 0u8..=2, 0u8..100).prop_map(|(topic, qos, size)| FlowMsg { topic, qos, size }).boxed()
 }
 
@@ -180,7 +225,7 @@ fn flow_case() -> BoxedStrategy<FlowCase> {
 }
 
 /// Payload of message `serial`: the serial tag, padded to the size class
-fn payload(serial: usize, class: u8) -> Vec<u8> {
+pub(super) fn payload(serial: usize, class: u8) -> Vec<u8> {
     let mut p = format!("#{serial};").into_bytes();
     let len = match class {
         0 => p.len(),
@@ -200,7 +245,7 @@ fn serial_of(payload: &[u8]) -> Option<usize> {
     std::str::from_utf8(payload.get(1..end)?).ok()?.parse().ok().filter(|_| payload[0] == b'#')
 }
 
-fn ack(pkid: u16) -> md::Ack {
+pub(super) fn ack(pkid: u16) -> md::Ack {
     md::Ack { pkid, reason: 0, props: Props::default() }
 }
 
@@ -313,23 +358,25 @@ impl Campaign for Flow {
 }
 
 #[derive(Default)]
-struct FlowStats {
-    published: u64,
-    delivered: u64,
+pub(super) struct FlowStats {
+    pub published: u64,
+    pub delivered: u64,
     /// waits decided by `next_or_quiescent`
-    waits: u64,
-    max_window: usize,
+    pub waits: u64,
+    pub max_window: usize,
     /// times the system went quiescent while the client's window was full
-    settled_full: u64,
-    ack_rounds: u64,
+    pub settled_full: u64,
+    pub ack_rounds: u64,
     /// PUBRELs received
-    rels: u64,
+    pub rels: u64,
     /// accepted for the subscriber and not yet read by it, in payload bytes (maximum)
-    max_unread_bytes: usize,
-    busy_pauses: u64,
+    pub max_unread_bytes: usize,
+    pub busy_pauses: u64,
+    /// forwards the publisher received on its own subscription
+    pub echoed: u64,
 }
 
-/// What the publisher has sent under one serial
+/// What has been published under one serial
 #[derive(Clone, Copy)]
 struct Sent {
     topic: &'static str,
@@ -338,11 +385,11 @@ struct Sent {
 
 /// The subscriber's side of the oracle
 #[derive(Default)]
-struct SubModel {
+pub(super) struct SubModel {
     subscribed: [bool; 2],
     /// per subscription (0: f/#, 1: g/#) the serials the broker has accepted, in acceptance order
     accepted: [Vec<usize>; 2],
-    /// how many of them have been delivered
+    /// how many of them have been delivered (or, if optional, passed over)
     delivered: [usize; 2],
     /// QoS>0 forwards received and not yet acknowledged (PUBACK / PUBREC), oldest first
     unacked: VecDeque<(u16, u8)>,
@@ -356,35 +403,52 @@ struct SubModel {
 }
 
 impl SubModel {
-    fn backlog(&self) -> bool {
-        (0..2).any(|s| self.delivered[s] < self.accepted[s].len())
+    /// Something accepted that must still be delivered (`optional`: serials that may have been
+    /// accepted or not, see `Run::accept_foreign`)
+    fn backlog(&self, optional: &HashSet<usize>) -> bool {
+        (0..2).any(|s| self.accepted[s][self.delivered[s]..].iter().any(|serial| !optional.contains(serial)))
     }
 
     /// Why a further frame must arrive without any further stimulus, if it must
-    fn owed(&self) -> Option<&'static str> {
+    fn owed(&self, optional: &HashSet<usize>) -> Option<&'static str> {
         if !self.rec_sent.is_empty() {
             Some("pubrel_owed")
-        } else if self.backlog() && self.unacked.len() < WINDOW {
+        } else if self.backlog(optional) && self.unacked.len() < WINDOW {
             Some("backlog:window_full_from_client=false")
         } else {
             None
         }
     }
 
-    fn done(&self) -> bool {
-        !self.backlog() && self.unacked.is_empty() && self.rec_sent.is_empty() && self.comp_due.is_empty()
+    fn done(&self, optional: &HashSet<usize>) -> bool {
+        !self.backlog(optional) && self.unacked.is_empty() && self.rec_sent.is_empty() && self.comp_due.is_empty()
     }
 }
 
-struct Run<'a> {
-    case: &'a FlowCase,
+/// One ordered stream of forwards: the accepted serials and how far delivery has come
+/// (the publisher's own subscription; the subscriber's two streams live in `SubModel`)
+#[derive(Default)]
+struct Echo {
+    accepted: Vec<usize>,
+    delivered: usize,
+}
+
+/// Publisher, subscriber and their oracle
+pub(super) struct Run<'a> {
+    pub p: FlowParams<'a>,
     stack: &'a Stack,
-    stats: &'a mut FlowStats,
-    publisher: Conn,
-    sub: Conn,
+    pub stats: &'a mut FlowStats,
+    pub publisher: Conn,
+    pub sub: Conn,
     model: SubModel,
-    /// everything published so far, by serial
+    echo: Echo,
+    /// everything published so far (by whomever), by serial
     sent: Vec<Sent>,
+    /// serials whose acceptance is not known (their sender's connection ended before the
+    /// broker confirmed them): they may be delivered, at their place, or not at all
+    optional: HashSet<usize>,
+    /// how many of `p.msgs` have been published
+    next_msg: usize,
 }
 
 async fn flow_body(stack: Stack, case: &FlowCase, stats: &mut FlowStats) -> R<()> {
@@ -395,19 +459,7 @@ async fn flow_body(stack: Stack, case: &FlowCase, stats: &mut FlowStats) -> R<()
 
 async fn flow_script(stack: &Stack, case: &FlowCase, stats: &mut FlowStats) -> R<()> {
     // 1. subscriber (clean session, keep-alive 600) with its subscriptions, then the publisher
-    let mut sub = stack.connect("subscriber", &Listener::plain(case.sub_ver), "flow-sub").await?;
-    sub.auto_ack = false;
-    let mut model = SubModel::default();
-    for (i, qos) in [Some(case.sub_qos), case.second].into_iter().enumerate() {
-        if let Some(qos) = qos {
-            let early = sub.subscribe_wait(1 + i as u16, FILTERS[i], qos, None).await?;
-            s_ensure!(early.is_empty(), "flow:frame_before_any_publish", "subscriber read {early:?} before the SUBACK of {}", FILTERS[i]);
-            model.subscribed[i] = true;
-        }
-    }
-    let mut publisher = stack.connect("publisher", &Listener::plain(case.pub_ver), "flow-pub").await?;
-    publisher.auto_ack = false;
-    let mut run = Run { case, stack, stats, publisher, sub, model, sent: Vec::new() };
+    let mut run = Run::open(stack, case.params(), stats).await?;
 
     // 2. the script, cyclically, until everything is published, delivered and acknowledged
     let mut markers_sent = false;
@@ -415,12 +467,12 @@ async fn flow_script(stack: &Stack, case: &FlowCase, stats: &mut FlowStats) -> R
     let mut effect_in_cycle = false;
     let mut steps = 0u32;
     loop {
-        if run.sent.len() >= case.msgs.len() && !markers_sent {
+        if run.all_published() && !markers_sent {
             // 3. QoS 0 end marker per subscription
             run.publish_markers().await?;
             markers_sent = true;
         }
-        if markers_sent && run.model.done() {
+        if markers_sent && run.done() {
             break;
         }
         steps += 1;
@@ -430,9 +482,7 @@ async fn flow_script(stack: &Stack, case: &FlowCase, stats: &mut FlowStats) -> R
         if case.script.is_empty() || (at == case.script.len() && !effect_in_cycle) {
             // a whole cycle changed nothing (e.g. a script without Ack and a full window): the
             // well-behaved subscriber reads what must come and acknowledges everything
-            run.publish(1).await?;
-            run.read(usize::MAX).await?;
-            run.ack(0).await?;
+            run.forced_round().await?;
             at = 0;
             continue;
         }
@@ -442,59 +492,147 @@ async fn flow_script(stack: &Stack, case: &FlowCase, stats: &mut FlowStats) -> R
         }
         let step = case.script[at];
         at += 1;
-        effect_in_cycle |= match step {
-            FlowStep::Pub(chunks) => run.publish(chunks as usize).await?,
-            FlowStep::Read(k) => run.read(k as usize).await?,
-            FlowStep::Ack(n) => run.ack(n as usize).await?,
-        };
+        effect_in_cycle |= run.step(step).await?;
     }
 
     // both connections are alive and owe nothing more
     run.alive().await
 }
 
-impl Run<'_> {
+impl<'a> Run<'a> {
+    fn sig(&self, tail: impl std::fmt::Display) -> String {
+        format!("{}:{}", self.p.sig, tail)
+    }
+
+    /// The subscriber connects (clean session, keep-alive 600) and subscribes, then the
+    /// publisher connects (and subscribes to ECHO_TOPIC if `p.echo`)
+    pub async fn open(stack: &'a Stack, p: FlowParams<'a>, stats: &'a mut FlowStats) -> R<Run<'a>> {
+        let mut sub = stack.connect("subscriber", &Listener::plain(p.sub_ver), p.ids[0]).await?;
+        sub.auto_ack = false;
+        let mut model = SubModel::default();
+        for (i, qos) in [Some(p.sub_qos), p.second].into_iter().enumerate() {
+            if let Some(qos) = qos {
+                let early = sub.subscribe_wait(1 + i as u16, FILTERS[i], qos, None).await?;
+                s_ensure!(early.is_empty(), format!("{}:frame_before_any_publish", p.sig), "subscriber read {early:?} before the SUBACK of {}", FILTERS[i]);
+                model.subscribed[i] = true;
+            }
+        }
+        let mut publisher = stack.connect("publisher", &Listener::plain(p.pub_ver), p.ids[1]).await?;
+        publisher.auto_ack = false;
+        if p.echo {
+            let early = publisher.subscribe_wait(1, ECHO_TOPIC, 0, None).await?;
+            s_ensure!(early.is_empty(), format!("{}:frame_before_any_publish", p.sig), "publisher read {early:?} before the SUBACK of {ECHO_TOPIC}");
+        }
+        Ok(Run { p, stack, stats, publisher, sub, model, echo: Echo::default(), sent: Vec::new(), optional: HashSet::new(), next_msg: 0 })
+    }
+
+    pub fn all_published(&self) -> bool {
+        self.next_msg >= self.p.msgs.len()
+    }
+
+    /// Everything accepted has been delivered and acknowledged
+    pub fn done(&self) -> bool {
+        self.model.done(&self.optional)
+    }
+
+    pub fn window(&self) -> usize {
+        self.model.unacked.len()
+    }
+
+    /// One step of a script. Returns whether it had any effect.
+    pub async fn step(&mut self, step: FlowStep) -> R<bool> {
+        match step {
+            FlowStep::Pub(chunks) => self.publish(chunks as usize).await,
+            FlowStep::Read(k) => self.read(k as usize).await,
+            FlowStep::Ack(n) => self.ack(n as usize).await,
+        }
+    }
+
+    /// What a well-behaved pair does when the script no longer moves anything: the next chunk,
+    /// everything that must come is read, everything is acknowledged
+    pub async fn forced_round(&mut self) -> R<()> {
+        self.publish(1).await?;
+        self.read(usize::MAX).await?;
+        self.ack(0).await?;
+        Ok(())
+    }
+
     // ---- publisher ------------------------------------------------------------------
 
     /// Sends the next `chunks` chunks (fewer when the messages run out). Returns whether
     /// anything was sent.
-    async fn publish(&mut self, chunks: usize) -> R<bool> {
+    pub async fn publish(&mut self, chunks: usize) -> R<bool> {
         let mut any = false;
         for _ in 0..chunks {
-            let from = self.sent.len();
-            let to = (from + self.case.chunk.max(1) as usize).min(self.case.msgs.len());
+            let from = self.next_msg;
+            let to = (from + self.p.chunk.max(1) as usize).min(self.p.msgs.len());
             if from >= to {
                 break;
             }
-            let batch: Vec<(usize, &'static str, u8, u8)> = (from..to)
-                .map(|serial| {
-                    let m = &self.case.msgs[serial];
-                    (serial, TOPICS[m.topic as usize % TOPICS.len()], m.qos.min(2), self.case.class(m))
+            let batch: Vec<(&'static str, u8, u8)> = self.p.msgs[from..to]
+                .iter()
+                .map(|m| {
+                    let topic = TOPICS[m.topic as usize % TOPICS.len()];
+                    let class = if self.p.echo && topic == ECHO_TOPIC { 0 } else { size_class(self.p.mix, m) };
+                    (topic, m.qos.min(2), class)
                 })
                 .collect();
+            self.next_msg = to;
             self.publish_batch(&batch).await?;
             any = true;
         }
         Ok(any)
     }
 
-    async fn publish_markers(&mut self) -> R<()> {
-        let from = self.sent.len();
-        let batch: Vec<(usize, &'static str, u8, u8)> =
-            (0..2).filter(|s| self.model.subscribed[*s]).enumerate().map(|(i, s)| (from + i, END_TOPICS[s], 0, 0)).collect();
+    pub async fn publish_markers(&mut self) -> R<()> {
+        let batch: Vec<(&'static str, u8, u8)> = (0..2).filter(|s| self.model.subscribed[*s]).map(|s| (END_TOPICS[s], 0, 0)).collect();
         self.publish_batch(&batch).await
+    }
+
+    /// Gives the next message (of whatever sender) its serial; returns the serial and the payload
+    pub fn register(&mut self, topic: &'static str, class: u8) -> (usize, Vec<u8>) {
+        let serial = self.sent.len();
+        self.sent.push(Sent { topic, class });
+        (serial, payload(serial, class))
+    }
+
+    /// The broker has accepted message `serial` (now, i.e. behind everything accepted before):
+    /// it is owed to every witness subscription it matches
+    fn accept(&mut self, serial: usize) {
+        let Sent { topic, class } = self.sent[serial];
+        let s = if topic.starts_with('f') { 0 } else { 1 };
+        if (topic.starts_with('f') || topic.starts_with('g')) && self.model.subscribed[s] {
+            self.model.accepted[s].push(serial);
+            self.model.unread_bytes += payload(serial, class).len();
+            self.stats.max_unread_bytes = self.stats.max_unread_bytes.max(self.model.unread_bytes);
+        }
+        if self.p.echo && topic == ECHO_TOPIC && !self.echo.accepted.contains(&serial) {
+            self.echo.accepted.push(serial);
+        }
+    }
+
+    /// A message of a third client, registered with `register`: the broker has confirmed it
+    /// (`confirmed`), or the sender's connection ended first, so that nobody knows whether the
+    /// broker accepted it (it may then be delivered at this place or never). The caller
+    /// guarantees that nothing else is published between the sending and this call.
+    pub fn accept_foreign(&mut self, serial: usize, confirmed: bool) {
+        if !confirmed {
+            self.optional.insert(serial);
+        }
+        self.accept(serial);
     }
 
     /// One chunk: the publishes back-to-back in one write, closed by a PINGREQ; exactly their
     /// PUBACK / PUBREC in request order up to the PINGRESP; then the PUBRELs, exactly their
     /// PUBCOMPs (C06). Afterwards the broker has accepted all of them (see the module comment
     /// for the order).
-    async fn publish_batch(&mut self, batch: &[(usize, &'static str, u8, u8)]) -> R<()> {
+    async fn publish_batch(&mut self, batch: &[(&'static str, u8, u8)]) -> R<()> {
         let ver = self.publisher.ver;
         let mut bytes = Vec::new();
         let mut want = Vec::new();
-        for &(serial, topic, qos, class) in batch {
-            debug_assert_eq!(serial, self.sent.len());
+        let mut serials = Vec::new();
+        for &(topic, qos, class) in batch {
+            let (serial, body) = self.register(topic, class);
             let pkid = (serial % 60_000) as u16 + 1;
             bytes.extend(reference::encode(
                 ver,
@@ -504,7 +642,7 @@ impl Run<'_> {
                     retain: false,
                     topic: Txt::lit(topic),
                     pkid: if qos == 0 { 0 } else { pkid },
-                    payload: Bin::Lit(payload(serial, class)),
+                    payload: Bin::Lit(body),
                     props: Props::default(),
                 }),
             ));
@@ -513,8 +651,16 @@ impl Run<'_> {
                 1 => want.push(M::PubAck(ack(pkid))),
                 _ => want.push(M::PubRec(ack(pkid))),
             }
-            self.sent.push(Sent { topic, class });
+            serials.push((serial, qos));
             self.stats.published += 1;
+        }
+        // the publisher's own subscription is read while the chunk is acknowledged: what it may
+        // receive is fixed before the broker can send it
+        let echo_order = |release_pass: bool| serials.iter().filter(move |(_, qos)| (*qos == 2) == release_pass).map(|(s, _)| *s);
+        if self.p.echo {
+            for serial in echo_order(false).filter(|s| self.sent[*s].topic == ECHO_TOPIC).collect::<Vec<_>>() {
+                self.echo.accepted.push(serial);
+            }
         }
         bytes.extend(reference::encode(ver, &M::PingReq));
         self.publisher.send(&bytes).await?;
@@ -522,6 +668,11 @@ impl Run<'_> {
 
         let releases: Vec<u16> = want.iter().filter_map(|m| if let M::PubRec(a) = m { Some(a.pkid) } else { None }).collect();
         if !releases.is_empty() {
+            if self.p.echo {
+                for serial in echo_order(true).filter(|s| self.sent[*s].topic == ECHO_TOPIC).collect::<Vec<_>>() {
+                    self.echo.accepted.push(serial);
+                }
+            }
             let mut bytes = Vec::new();
             for pkid in &releases {
                 bytes.extend(reference::encode(ver, &M::PubRel(ack(*pkid))));
@@ -533,22 +684,15 @@ impl Run<'_> {
         }
 
         for release_pass in [false, true] {
-            for &(serial, topic, qos, class) in batch {
-                if (qos == 2) != release_pass {
-                    continue;
-                }
-                let s = if topic.starts_with('f') { 0 } else { 1 };
-                if self.model.subscribed[s] {
-                    self.model.accepted[s].push(serial);
-                    self.model.unread_bytes += payload(serial, class).len();
-                }
+            for serial in echo_order(release_pass).collect::<Vec<_>>() {
+                self.accept(serial);
             }
         }
-        self.stats.max_unread_bytes = self.stats.max_unread_bytes.max(self.model.unread_bytes);
         Ok(())
     }
 
-    /// Reads the publisher's stream up to the PINGRESP: exactly `want`, in this order
+    /// Reads the publisher's stream up to the PINGRESP: exactly `want`, in this order (and, with
+    /// `p.echo`, forwards of its own subscription in between)
     async fn replies(&mut self, want: &[M], phase: &'static str) -> R<()> {
         let mut got = 0usize;
         loop {
@@ -557,10 +701,10 @@ impl Run<'_> {
                 Waited::Frame(m) => m,
                 Waited::Closed => {
                     self.publisher.check_not_panicked().await?;
-                    s_fail!(format!("flow:publisher_closed:{phase}"), "publisher stream closed after {got} of {} replies", want.len())
+                    s_fail!(self.sig(format_args!("publisher_closed:{phase}")), "publisher stream closed after {got} of {} replies", want.len())
                 }
                 Waited::Quiescent => s_fail!(
-                    format!("flow:stalled:publisher:{phase}"),
+                    self.sig(format_args!("stalled:publisher:{phase}")),
                     "the system is quiescent, the publisher has read {got} of {} replies and no PINGRESP; next owed: {:?}",
                     want.len(),
                     want.get(got)
@@ -569,22 +713,56 @@ impl Run<'_> {
             if m == M::PingResp {
                 s_ensure!(
                     got == want.len(),
-                    format!("flow:ack:missing:{}", want[got.min(want.len() - 1)].type_name()),
+                    self.sig(format_args!("ack:missing:{}", want[got.min(want.len() - 1)].type_name())),
                     "PINGRESP arrived after {got} of {} replies of the {phase} phase; first missing: {:?}",
                     want.len(),
                     want.get(got)
                 );
                 return Ok(());
             }
+            if let (true, M::Publish(p)) = (self.p.echo, &m) {
+                self.on_echo(p)?;
+                continue;
+            }
             match want.get(got) {
                 Some(w) if *w == m => got += 1,
                 w => s_fail!(
-                    format!("flow:ack:unexpected:{}:{}", phase, m.type_name()),
+                    self.sig(format_args!("ack:unexpected:{}:{}", phase, m.type_name())),
                     "reply {got} of the {phase} phase is {m:?}, expected {}",
                     w.map(|w| format!("{w:?}")).unwrap_or_else(|| "the PINGRESP".into())
                 ),
             }
         }
+    }
+
+    /// A forward on the publisher's own QoS 0 subscription: the accepted ECHO_TOPIC messages in
+    /// acceptance order, each once
+    fn on_echo(&mut self, p: &md::Publish) -> R<()> {
+        let topic = p.topic.get();
+        let body = p.payload.get();
+        s_ensure!(topic == ECHO_TOPIC, self.sig("echo:foreign_topic"), "the publisher, subscribed to {ECHO_TOPIC}, received a forward on {topic:?}");
+        let Some(serial) = serial_of(&body) else {
+            s_fail!(self.sig("echo:payload_unidentifiable"), "forward on {topic:?} with payload {:02x?}", &body[..body.len().min(24)])
+        };
+        while self.echo.accepted.get(self.echo.delivered).is_some_and(|s| *s != serial && self.optional.contains(s)) {
+            self.echo.delivered += 1;
+        }
+        let at = self.echo.delivered;
+        if self.echo.accepted.get(at) != Some(&serial) {
+            let sig = if self.echo.accepted[..at].contains(&serial) {
+                "echo:duplicate"
+            } else if self.echo.accepted[at..].contains(&serial) {
+                "echo:order"
+            } else {
+                "echo:not_accepted"
+            };
+            s_fail!(self.sig(sig), "publisher's forward {at} is message {serial}, expected message {:?}", self.echo.accepted.get(at))
+        }
+        s_ensure!(body == payload(serial, self.sent[serial].class), self.sig("echo:payload_differs"), "message {serial}: delivered {} bytes", body.len());
+        s_ensure!(p.qos == 0 && p.pkid == 0, self.sig("echo:qos"), "forward on a QoS 0 subscription: {p:?}");
+        self.echo.delivered += 1;
+        self.stats.echoed += 1;
+        Ok(())
     }
 
     // ---- subscriber -----------------------------------------------------------------
@@ -598,7 +776,7 @@ impl Run<'_> {
             Waited::Closed => {
                 self.sub.check_not_panicked().await?;
                 s_fail!(
-                    "flow:subscriber_closed",
+                    self.sig("subscriber_closed"),
                     "the broker closed the well-behaved subscriber ({} unacknowledged, {} PUBRELs owed); last frames: {:?}",
                     self.model.unacked.len(),
                     self.model.rec_sent.len(),
@@ -610,7 +788,7 @@ impl Run<'_> {
 
     fn stalled<T>(&self, owed: &str) -> R<T> {
         Err(Stop::Fail(Failure::new(
-            format!("flow:stalled:{owed}"),
+            self.sig(format_args!("stalled:{owed}")),
             format!(
                 "the system is quiescent (router idle, no connection task runnable, stream empty) but the subscriber is still owed a frame: delivered {:?} of {:?} accepted per subscription, {} unacknowledged at the client, {} PUBRELs owed, {} published; last frame: {:?}",
                 self.model.delivered,
@@ -626,10 +804,10 @@ impl Run<'_> {
     /// Reads up to `k` frames that must arrive. With a full window nothing must; then the body
     /// waits (once per acknowledgement round) until the system is quiescent and takes what the
     /// broker has sent nevertheless: a QoS>0 forward among it exceeds the window.
-    async fn read(&mut self, k: usize) -> R<bool> {
+    pub async fn read(&mut self, k: usize) -> R<bool> {
         let mut any = false;
         for _ in 0..k {
-            if let Some(owed) = self.model.owed() {
+            if let Some(owed) = self.model.owed(&self.optional) {
                 match self.sub_frame().await? {
                     Some(m) => self.on_frame(m).await?,
                     None => return self.stalled(owed),
@@ -659,20 +837,20 @@ impl Run<'_> {
                 match self.model.rec_sent.front() {
                     Some(p) if *p == a.pkid => {}
                     Some(_) if self.model.rec_sent.contains(&a.pkid) => {
-                        s_fail!("flow:pubrel:order", "PUBREL {} while the PUBRECs {:?} are unanswered", a.pkid, self.model.rec_sent)
+                        s_fail!(self.sig("pubrel:order"), "PUBREL {} while the PUBRECs {:?} are unanswered", a.pkid, self.model.rec_sent)
                     }
-                    _ => s_fail!("flow:pubrel:unsolicited", "PUBREL {} without an unanswered PUBREC ({:?})", a.pkid, self.model.rec_sent),
+                    _ => s_fail!(self.sig("pubrel:unsolicited"), "PUBREL {} without an unanswered PUBREC ({:?})", a.pkid, self.model.rec_sent),
                 }
                 self.model.rec_sent.pop_front();
                 self.stats.rels += 1;
-                if self.case.qos2 == Qos2Style::RecFirst {
+                if self.p.qos2 == Qos2Style::RecFirst {
                     self.model.comp_due.push_back(a.pkid);
                 } else {
                     self.sub.send_packet(&M::PubComp(ack(a.pkid))).await?;
                 }
                 Ok(())
             }
-            other => s_fail!(format!("flow:unexpected_frame:{}", other.type_name()), "subscriber read {other:?}"),
+            other => s_fail!(self.sig(format_args!("unexpected_frame:{}", other.type_name())), "subscriber read {other:?}"),
         }
     }
 
@@ -682,24 +860,28 @@ impl Run<'_> {
         let s = match topic.as_bytes().first() {
             Some(b'f') => 0,
             Some(b'g') => 1,
-            _ => s_fail!("flow:delivery:foreign_topic", "forward on {topic:?}"),
+            _ => s_fail!(self.sig("delivery:foreign_topic"), "forward on {topic:?}"),
         };
-        s_ensure!(self.model.subscribed[s], "flow:delivery:not_subscribed", "forward on {topic:?} without a subscription on {}", FILTERS[s]);
+        s_ensure!(self.model.subscribed[s], self.sig("delivery:not_subscribed"), "forward on {topic:?} without a subscription on {}", FILTERS[s]);
         let Some(serial) = serial_of(&body) else {
-            s_fail!("flow:delivery:payload_unidentifiable", "forward on {topic:?} with payload {:02x?}", &body[..body.len().min(24)])
+            s_fail!(self.sig("delivery:payload_unidentifiable"), "forward on {topic:?} with payload {:02x?}", &body[..body.len().min(24)])
         };
+        // a message whose acceptance is not known may be missing at its place
+        while self.model.accepted[s].get(self.model.delivered[s]).is_some_and(|x| *x != serial && self.optional.contains(x)) {
+            self.model.delivered[s] += 1;
+        }
         // C01: exactly the accepted ones, in acceptance order, each once
         let at = self.model.delivered[s];
         if self.model.accepted[s].get(at) != Some(&serial) {
             let sig = if self.model.accepted[s][..at].contains(&serial) {
-                "flow:delivery:duplicate"
+                "delivery:duplicate"
             } else if self.model.accepted[s][at..].contains(&serial) {
-                "flow:delivery:order"
+                "delivery:order"
             } else {
-                "flow:delivery:not_accepted_on_this_subscription"
+                "delivery:not_accepted_on_this_subscription"
             };
             s_fail!(
-                sig,
+                self.sig(sig),
                 "{}: forward {} is message {serial} on {topic:?}, expected message {:?} (accepted so far: {})",
                 FILTERS[s],
                 at,
@@ -708,10 +890,10 @@ impl Run<'_> {
             )
         }
         let sent = self.sent[serial];
-        s_ensure!(topic == sent.topic, "flow:delivery:topic_differs", "message {serial} published on {:?}, delivered on {topic:?}", sent.topic);
+        s_ensure!(topic == sent.topic, self.sig("delivery:topic_differs"), "message {serial} published on {:?}, delivered on {topic:?}", sent.topic);
         s_ensure!(
             body == payload(serial, sent.class),
-            "flow:delivery:payload_differs",
+            self.sig("delivery:payload_differs"),
             "message {serial}: delivered {} bytes, published {}",
             body.len(),
             payload(serial, sent.class).len()
@@ -720,15 +902,19 @@ impl Run<'_> {
         self.model.unread_bytes = self.model.unread_bytes.saturating_sub(body.len());
         self.stats.delivered += 1;
         // C09: the forwarded QoS is the broker's choice, but the packet id must fit it
-        s_ensure!(p.qos <= 2, "flow:forward_qos_invalid", "forward with QoS {}", p.qos);
-        s_ensure!((p.qos > 0) == (p.pkid != 0), format!("flow:pkid:qos{}_with_pkid_{}", p.qos.min(1), if p.pkid == 0 { "zero" } else { "nonzero" }), "forward {p:?}");
+        s_ensure!(p.qos <= 2, self.sig("forward_qos_invalid"), "forward with QoS {}", p.qos);
+        s_ensure!(
+            (p.qos > 0) == (p.pkid != 0),
+            self.sig(format_args!("pkid:qos{}_with_pkid_{}", p.qos.min(1), if p.pkid == 0 { "zero" } else { "nonzero" })),
+            "forward {p:?}"
+        );
         if p.qos > 0 {
             let reused = self.model.unacked.iter().any(|(id, _)| *id == p.pkid);
             self.model.unacked.push_back((p.pkid, p.qos));
             self.stats.max_window = self.stats.max_window.max(self.model.unacked.len());
             s_ensure!(
                 self.model.unacked.len() <= WINDOW,
-                "flow:window_exceeded",
+                self.sig("window_exceeded"),
                 "{} QoS>0 forwards are unacknowledged at the client (the system had been quiescent with the full window: {}); packet id {} {}",
                 self.model.unacked.len(),
                 self.model.settled_full,
@@ -737,7 +923,7 @@ impl Run<'_> {
             );
             s_ensure!(
                 !reused,
-                "flow:pkid:reused_while_unacknowledged",
+                self.sig("pkid:reused_while_unacknowledged"),
                 "forward with packet id {} while {:?} are unacknowledged",
                 p.pkid,
                 self.model.unacked.iter().map(|(id, _)| *id).collect::<Vec<_>>()
@@ -749,7 +935,7 @@ impl Run<'_> {
     /// Acknowledges the `n` oldest unacknowledged forwards in order (0 = all), the PUBACKs and
     /// PUBRECs of one round in one write; held-back PUBCOMPs go first. Returns whether anything
     /// was sent.
-    async fn ack(&mut self, n: usize) -> R<bool> {
+    pub async fn ack(&mut self, n: usize) -> R<bool> {
         let ver = self.sub.ver;
         let mut bytes = Vec::new();
         for pkid in self.model.comp_due.drain(..) {
@@ -764,7 +950,7 @@ impl Run<'_> {
             }
             bytes.extend(reference::encode(ver, &M::PubRec(ack(pkid))));
             self.model.rec_sent.push_back(pkid);
-            if self.case.qos2 == Qos2Style::FlowAtOnce {
+            if self.p.qos2 == Qos2Style::FlowAtOnce {
                 // complete this flow before the next acknowledgement
                 self.sub.send(&bytes).await?;
                 bytes.clear();
@@ -789,8 +975,9 @@ impl Run<'_> {
 
     // ---- end ------------------------------------------------------------------------
 
-    /// PINGREQ on both connections, answered by the PINGRESP and nothing else; tasks running
-    async fn alive(&mut self) -> R<()> {
+    /// PINGREQ on both connections, answered by the PINGRESP and nothing else (the publisher's
+    /// own subscription has delivered everything); tasks running
+    pub async fn alive(&mut self) -> R<()> {
         self.sub.send_packet(&M::PingReq).await?;
         loop {
             match self.sub_frame().await? {
@@ -801,9 +988,27 @@ impl Run<'_> {
         }
         self.publisher.send_packet(&M::PingReq).await?;
         self.replies(&[], "end").await?;
+        while self.echo.accepted[self.echo.delivered..].iter().any(|s| !self.optional.contains(s)) {
+            match self.stack.next_or_quiescent(&mut self.publisher).await? {
+                Waited::Frame(M::Publish(p)) => self.on_echo(&p)?,
+                Waited::Frame(m) => s_fail!(self.sig(format_args!("ack:unexpected:end:{}", m.type_name())), "publisher read {m:?} after the last PINGRESP"),
+                Waited::Closed => {
+                    self.publisher.check_not_panicked().await?;
+                    s_fail!(self.sig("publisher_closed:end"), "publisher stream closed")
+                }
+                Waited::Quiescent => s_fail!(
+                    self.sig("stalled:publisher:echo"),
+                    "the system is quiescent, the publisher has received {} of the {} accepted messages on {ECHO_TOPIC}",
+                    self.echo.delivered,
+                    self.echo.accepted.len()
+                ),
+            }
+        }
         for c in [&mut self.sub, &mut self.publisher] {
             c.check_not_panicked().await?;
-            s_ensure!(!c.task_finished(), "flow:connection_not_alive_at_the_end", "{}: task finished", c.name);
+        }
+        for c in [&self.sub, &self.publisher] {
+            s_ensure!(!c.task_finished(), self.sig("connection_not_alive_at_the_end"), "{}: task finished", c.name);
         }
         Ok(())
     }
